@@ -348,6 +348,12 @@ structure Out (V : Type) where
   trace : List V
   fin : Except PErr (Regs V)
 
+/-- the error that aborted the run, if any -/
+def Out.err (o : Out V) : Option PErr :=
+  match o.fin with
+  | .ok _ => none
+  | .error e => some e
+
 /-- `_run_program`: apply the commands in order; the first parameter error aborts -/
 def runCmds [ValOps V] (free : String → Option V) (r : Regs V) : List (Cmd V) → Out V
   | [] => ⟨[], .ok r⟩
@@ -365,12 +371,13 @@ structure Eng (V : Type) where
   vals : Regs V := Regs.empty
 
 /-- one iteration of the loop in `BaseEngine._run` for a segment whose Program currently holds
-`own` in its RegRefs (stale values of earlier runs, deep-copied values of a parent …):
-first segment ⇒ the RegRefs are cleared, later segment ⇒ every RegRef gets the engine's latest
-value; then the commands run; then the engine records the RegRef values. -/
-def runSeg [ValOps V] (free : String → Option V) (e : Eng V) (_own : Regs V) (cmds : List (Cmd V)) :
+`own` in its RegRefs (stale values of earlier runs, deep-copied values of a parent, values set by
+hand …): the first segment of a computation runs with what its Program holds, in a later segment
+every RegRef is overwritten with the engine's latest value; then the commands run; then the engine
+records the RegRef values. -/
+def runSeg [ValOps V] (free : String → Option V) (e : Eng V) (own : Regs V) (cmds : List (Cmd V)) :
     Out V × Eng V :=
-  let r0 : Regs V := if e.started then e.vals else Regs.empty
+  let r0 : Regs V := if e.started then e.vals else own
   let o := runCmds free r0 cmds
   match o.fin with
   | .ok r => (o, { started := true, vals := r })
